@@ -669,6 +669,65 @@ fn flatten_expression_to_names(expr: Rc<SExp>) -> Rc<BodyForm> {
     Rc::new(BodyForm::Call(expr.loc(), call_vec, None))
 }
 
+/// Code given to com is compiled as a program taking prog_args, but names bound
+/// by enclosing let forms exist only in env.  Rebind the ones the code uses
+/// around it so they aren't taken for unbound names (constants of their own
+/// spelling).
+fn bind_let_names_for_com(
+    loc: &Srcloc,
+    prog_args: Rc<SExp>,
+    env: &HashMap<Vec<u8>, Rc<BodyForm>>,
+    body: Rc<BodyForm>,
+) -> Rc<BodyForm> {
+    let mut arg_names = HashSet::new();
+    flatten_expression_to_names_inner(&mut arg_names, prog_args);
+    let mut wanted: Vec<Vec<u8>> = Vec::new();
+    let mut to_scan = vec![body.to_sexp()];
+    while let Some(expr) = to_scan.pop() {
+        let mut names = HashSet::new();
+        flatten_expression_to_names_inner(&mut names, expr);
+        for n in names.iter() {
+            if arg_names.contains(n) || wanted.contains(n) {
+                continue;
+            }
+            if let Some(v) = env.get(n) {
+                if !reflex_capture(n, v.clone()) {
+                    wanted.push(n.clone());
+                    to_scan.push(v.to_sexp());
+                }
+            }
+        }
+    }
+
+    if wanted.is_empty() {
+        return body;
+    }
+
+    // Assign sorts its bindings by dependency.
+    wanted.sort();
+    let bindings = wanted
+        .iter()
+        .map(|n| {
+            Rc::new(Binding {
+                loc: loc.clone(),
+                nl: loc.clone(),
+                pattern: BindingPattern::Name(n.clone()),
+                body: env[n].clone(),
+            })
+        })
+        .collect();
+    Rc::new(BodyForm::Let(
+        LetFormKind::Assign,
+        Box::new(LetData {
+            loc: loc.clone(),
+            kw: None,
+            inline_hint: None,
+            bindings,
+            body,
+        }),
+    ))
+}
+
 pub fn eval_dont_expand_let(inline_hint: &Option<LetFormInlineHint>) -> bool {
     matches!(inline_hint, Some(LetFormInlineHint::NonInline(_)))
 }
@@ -886,9 +945,15 @@ impl<'info> Evaluator {
                 prog_args,
             ))))
         } else if call.name == "com".as_bytes() {
+            let to_compile = bind_let_names_for_com(
+                &call.loc,
+                prog_args.clone(),
+                env,
+                arguments_to_convert[0].clone(),
+            );
             let mut end_of_list = Rc::new(SExp::Cons(
                 call.loc.clone(),
-                arguments_to_convert[0].to_sexp(),
+                to_compile.to_sexp(),
                 Rc::new(SExp::Nil(call.loc.clone())),
             ));
 
